@@ -187,6 +187,54 @@ theorem runSeqH_eq (v : Variant) (exec : Cfg → Vars → List Frame → Trace) 
     refine ⟨g', ?_⟩
     simp only [runSeqH, hr, List.append_assoc, hrest, List.map_cons, alone, hcfg, Option.map_some]
 
+/-! ### Sequences with the owner's edits in between -/
+
+/-- what each subscription shows when it is run alone on a client configured as the owner's edits
+    (and nothing else) left it at that moment -/
+def expectedObs (v : Variant) (exec : Cfg → Vars → List Frame → Trace) : Store → ClientObj → List Action → List (Option Obs)
+  | _, _, [] => []
+  | s, cl, .edit e :: rest => expectedObs v exec (e.apply s cl).1 (e.apply s cl).2 rest
+  | s, cl, .sub st :: rest => alone v exec s cl st :: expectedObs v exec s cl rest
+
+/-- every subscription's references name objects at its time, every in-place mutation names an object -/
+def WfActs : Store → ClientObj → List Action → Prop
+  | _, _, [] => True
+  | s, cl, .edit e :: rest => e.inRange s = true ∧ WfActs (e.apply s cl).1 (e.apply s cl).2 rest
+  | s, cl, .sub st :: rest => (cfgAt s cl st.call).isSome = true ∧ WfActs s cl rest
+
+theorem edit_apply_append (e : Edit) (s g : Store) (cl : ClientObj) (h : e.inRange s = true) :
+    e.apply (s ++ g) cl = ((e.apply s cl).1 ++ g, (e.apply s cl).2) := by
+  cases e with
+  | write a o =>
+    simp only [Edit.inRange, decide_eq_true_eq] at h
+    simp [Edit.apply, List.set_append, h]
+  | setInit p => rfl
+  | setHeaders hd => rfl
+  | setOrigin o => rfl
+  | setUrl u => rfl
+
+theorem runActs_eq (v : Variant) (exec : Cfg → Vars → List Frame → Trace) (hx : HeadersViaMerge exec)
+    (acts : List Action) : ∀ (s : Store) (cl : ClientObj) (g : Store), WfActs s cl acts →
+    ∃ g', runActs v exec (s ++ g) cl acts =
+      ((editsOnly s cl acts).1 ++ g', (editsOnly s cl acts).2, expectedObs v exec s cl acts) := by
+  induction acts with
+  | nil => intro s cl g _; exact ⟨g, rfl⟩
+  | cons a rest ih =>
+    intro s cl g hwf
+    cases a with
+    | edit e =>
+      obtain ⟨hr, hrest⟩ := hwf
+      obtain ⟨g', hg'⟩ := ih (e.apply s cl).1 (e.apply s cl).2 g hrest
+      refine ⟨g', ?_⟩
+      simp only [runActs, edit_apply_append e s g cl hr, hg', editsOnly, expectedObs]
+    | sub st =>
+      obtain ⟨hc, hrest⟩ := hwf
+      obtain ⟨cfg, hcfg⟩ := Option.isSome_iff_exists.mp hc
+      obtain ⟨tail, hr⟩ := runH_eq v exec hx (s ++ g) cl st.call cfg st.vars st.frames (cfgAt_append s g cl st.call cfg hcfg)
+      obtain ⟨g', hg'⟩ := ih s cl (g ++ tail) hrest
+      refine ⟨g', ?_⟩
+      simp only [runActs, hr, List.append_assoc, hg', editsOnly, expectedObs, alone, hcfg, Option.map_some]
+
 /-! ### Schedules -/
 
 /-- phase `ph` of a task is consistent with running its step alone on the untouched client and store -/
